@@ -25,10 +25,10 @@ the statement without side conditions; `canonicalize_idempotent_partial` has two
   insensitive to the case of hex digits after a `%` in a label, which `PunyLaws` does not say.
 
 The three former side conditions are gone with the defects they named: the bracket
-conditions (KF-C01-1/2 → FX-C01-USERBRACKETS, FX-C01-IPBRACKETS, `Lemmas/BracketHost.lean`),
-"an authority is printed" (KF-C02-3 → FX-C02-EMPTYAUTH: `scheme://` is always printed,
+conditions (KF-C01-1/2 → FX-C01-ca9f3e6, FX-C01-feb1ed1, `Lemmas/BracketHost.lean`),
+"an authority is printed" (KF-C02-3 → FX-C02-f918741: `scheme://` is always printed,
 `printSplit_normal`), "the result does not end with white space" (KF-C02-2 →
-FX-C02-TRAILINGWS: `printed_last`).
+FX-C02-16f182c: `printed_last`).
 
 The quoted mode, and idempotence across spellings, stay with the oracle (`UNPROVED`).
 -/
@@ -89,7 +89,7 @@ theorem canonicalize_idempotent_of_pathIdem (hpath : PathIdem)
 
 /-- **C02 (i), whole function** (`_partial`: the host holds no `%`), the path facts discharged
 by `Lemmas/Normpath.lean`.  No hypothesis on brackets, on the scheme or on white space is
-left (FX-C01-USERBRACKETS, FX-C01-IPBRACKETS, FX-C02-EMPTYAUTH, FX-C02-TRAILINGWS). -/
+left (FX-C01-ca9f3e6, FX-C01-feb1ed1, FX-C02-f918741, FX-C02-16f182c). -/
 theorem canonicalize_idempotent_partial
     (puny : Str → Str) (hpl : PunyLaws puny) (hpc : PunyClean puny)
     (dp : Str) (sf : Bool) (hdp : ProtoLetters dp) (u s : Str)
